@@ -1,5 +1,6 @@
 import Gallia.Lib.Proto
 import Gallia.Model.PenlogHr
+import Gallia.Model.PenlogGate
 open Gallia Gallia.Proto Gallia.Penlog
 
 /-
@@ -14,6 +15,8 @@ open Gallia Gallia.Proto Gallia.Penlog
     unesc <hex>                             -> text of a JSON string literal (or `bad`)
     prio <hex>                              -> priority of a raw line
     lvl <n> / tolvl <p>                     -> level mapping
+    gate <console> <filelv> <depth>:<lv>,...  -> `k` + one digit per logged record: 1 = it reaches the file
+    conlvl <verbose> / filelvl <t|f|n> <verbose|n>   -> get_log_level / get_file_log_level
     logrec <name> <msg> <levelno> <levelname> <Y> <Mo> <D> <H> <Mi> <S> <us> <off|n> <path> <lineno> <func> <tags> <exc|n> <stack|n> <host>
                                             -> like `rec`, for the record as `QueueHandler.prepare` + `_JSONFormatter.format` make it
     jsonfmt <same arguments>                -> hex of the JSON object `_JSONFormatter.format` returns (no queue), state unchanged
@@ -392,6 +395,23 @@ def step (s : St) (line : String) : St × String :=
   | ["prio", h] => match parseHex h with
     | some b => (s, showOptNat (linePrio (b.map (·.toNat))))
     | none => (s, "bad-op")
+  | ["gate", c, f, recs] =>
+    let parsed := (if recs == "-" then [] else recs.splitOn ",").map (fun t => match t.splitOn ":" with
+      | [d, l] => match d.toNat?, l.toNat? with
+        | some d, some l => some (d, l)
+        | _, _ => none
+      | _ => none)
+    match c.toNat?, f.toNat? with
+    | some c, some f =>
+      if parsed.any Option.isNone then (s, "bad-op")
+      else (s, "k" ++ String.join ((fileFlags c f (parsed.filterMap id)).map (fun b => if b then "1" else "0")))
+    | _, _ => (s, "bad-op")
+  | ["conlvl", v] => match v.toNat? with
+    | some v => (s, toString (consoleLevelOf v))
+    | none => (s, "bad-op")
+  | ["filelvl", t, v] =>
+    let tl : Option Bool := if t == "t" then some true else if t == "f" then some false else none
+    (s, toString (fileLevelOf tl v.toNat?))
   | ["lvl", n] => match n.toNat? with
     | some l => (s, showOptNat (fromLevel l))
     | none => (s, "bad-op")
